@@ -40,6 +40,7 @@ void reopen_point(Ctx &c, Graph &g, const std::string &after) {
     grab();
     c.op("close | after " + after + ", " + str(nodes) + " nodes, live handles " + str(hb.size() + ha.size() + hs.size()));
     g.close();
+    advance_clock(2 + (long)c.rng.u(5));   // the next session starts seconds later: a timestamp that is re-stamped on open becomes visible
     // sometimes the file is reopened under another name of the same file (a symbolic link)
     std::string real_path = g.path, link_path = g.path + ".lnk"; bool via_link = c.rng.chance(0.15);
     if (via_link) { unlink(link_path.c_str()); if (symlink(real_path.c_str(), link_path.c_str()) != 0) via_link = false; }
